@@ -182,7 +182,7 @@ func runC18(c *Ctx) {
 	r.Rule("nil-deref", "dereferences of pointers whose nil-ness depends on the lease file are proved non-nil", 4)
 	r.Rule("insert-guards", "a loaded lease enters the table only when allocated, inside the home subnet and with a client id; net2 only for captured MACs", 6)
 	r.Rule("reset", "New falls back to fresh tables unless the loaded state is complete and matches the configuration", 1)
-	r.Rule("persist", "acknowledged leases are saved under a non-empty key; only allocated leases are written; the file is replaced whole; a freed binding leaves the file", 6)
+	r.Rule("persist", "acknowledged leases are saved under a non-empty key; only allocated leases are written; the file is replaced whole and read whole; a freed binding leaves the file", 7)
 
 	const rel = "handlers/dhcp4_spoofer"
 	pk := c.P.Pkg(rel)
@@ -686,6 +686,42 @@ func runC18(c *Ctx) {
 					Basis: last.Name() + " = len(Leases) dominates yaml.Marshal, no later change of the list", Detail: "saveConfig does not set " + last.Name() + " to len(Leases) after the list is complete and before yaml.Marshal: every file it writes is rejected, or a stale count is accepted"})
 			}
 		}
+	}
+	// the loader sees the whole file: what loadConfig hands to loadByteArray is the result of a whole-file read. A read
+	// capped at some size turns every intact file larger than the cap into a "damaged" one (each lease takes about 330
+	// bytes of YAML, so a busy /24 passes any small cap) and the table is reset.
+	if lc := c.P.Method(rel, "Handler", "loadConfig"); lc != nil {
+		st, det := core.Undecided, "the call of loadByteArray in loadConfig, or the read that feeds it, was not recognised"
+		for _, site := range callsIn(lc, nameIs("loadByteArray")) {
+			args := site.Common().Args
+			if len(args) < 2 {
+				continue
+			}
+			whole, limited := false, ""
+			for v := range dataSlice(lc, args[1]) {
+				cl, isCall := v.(*ssa.Call)
+				if !isCall || cl.Common().StaticCallee() == nil {
+					continue
+				}
+				switch n := core.FuncName(cl.Common().StaticCallee()); n {
+				case "io/ioutil.ReadFile", "os.ReadFile", "io/ioutil.ReadAll", "io.ReadAll":
+					whole = true
+				case "io.LimitReader", "io.NewSectionReader", "io.ReadFull", "io.ReadAtLeast":
+					limited = n
+				}
+				if cl.Common().StaticCallee().Name() == "Read" {
+					limited = core.FuncName(cl.Common().StaticCallee())
+				}
+			}
+			switch {
+			case limited != "":
+				st, det = core.Violated, "loadConfig reads the lease file through "+limited+": an intact file larger than the limit is cut short, fails its checksum and the table is reset - every acknowledged binding is lost at restart once the table has grown"
+			case whole:
+				st, det = core.Proved, ""
+			}
+		}
+		r.Add(core.Obligation{Rule: "persist", Key: "persist loadConfig reads the whole file", Func: core.FuncName(lc), Pos: c.P.Pos(lc.Pos()), Status: st,
+			Basis: "loadByteArray is fed by ReadFile / ReadAll without a limiting reader", Detail: det})
 	}
 	// ---- checksum ----
 	// Damage other than truncation - a digit changed inside an address, a line lost from a client id - still parses and
